@@ -448,9 +448,18 @@ def c28(tier):
         out.append(V("union", setop("union", ["DS_V1", "DS_V2"])))
         out.append(V("setdiff", setop("setdiff", ["DS_V1", "DS_V2"])))
         out.append(V("if_ds_ds", if_(binop(">", member("DS_V1", "Me_1"), 0), "DS_V1", "DS_V2")))
-        if tier != "quick":
+        # compositions: the viral value of the inner result must travel through the outer operator
+        if tier != "quick" or rn in ("enum_pair_last", "agg_max"):
             out.append(V("d2_plus_plus", binop("+", par(binop("+", "DS_V1", "DS_V2")), "DS_V1")))
             out.append(V("agg_of_sum", agg("sum", par(binop("+", "DS_V1", "DS_V2")), "group by", ["Id_1"]), 2))
+            out.append(V("x_filter_of_sum", filter_(binop("+", "DS_V1", "DS_V2"), binop(">", "Me_1", 0))))
+            out.append(V("x_union_of_sum", setop("union", [binop("+", "DS_V1", "DS_V2"), "DS_V1"])))
+            out.append(V("x_abs_of_sum", unop("abs", binop("+", "DS_V1", "DS_V2"))))
+            out.append(V("x_join_of_sum", join("inner_join", [(binop("+", "DS_V1", "DS_V2"), "a"), ("DS_V3", "b")])))
+            out.append(V("x_sum_of_filter", agg("sum", filter_("DS_V1", binop(">", "Me_1", 0)), "group by", ["Id_1"]), 3))
+            out.append(V("x_sum_of_union", agg("sum", setop("union", ["DS_V1", "DS_V2"]), "group by", ["Id_1"]), 2))
+            out.append(V("x_plus_of_aggs", binop("+", agg("sum", "DS_V1", "group by", ["Id_1"]), agg("sum", "DS_V2", "group by", ["Id_1"])), 2))
+            out.append(V("x_calc_of_join", jbody(join("inner_join", [("DS_V1", "a"), ("DS_V3", "b")]), lambda j: calc(j, [("measure", "Me_9", binop("+", "Me_1", "Me_3"))]))))
     return [t for t in out if t is not None]
 
 
